@@ -216,3 +216,29 @@ TECHNIQUE = {
     "C03": "exhaustive single-fault (byte damage) neighbourhood enumeration on the real parser",
     "C11": "exhaustive enumeration of all byte/token strings up to a length bound on the real parser",
 }
+
+# ---- parts added in seeding rounds 3 and 4 (appended to the rules above; details in DESIGN.md §3) ----
+RULE_EXTRA = {
+    "C01": "Also: bytes returned by earlier serialisations of the same object must stay intact; non-canonical float texts through FromBytes; a refused Set changes nothing.",
+    "C03": "Also: every variant parsed into a message object that parsed the intact message before; replays re-execute the worker's enumeration prefix (stateful parsers).",
+    "C04": "Also: read deadlines honoured in virtual time with a pausing peer at every single cut; BeginString look-alikes in the pool; the handler stopped while a callback runs with messages queued (delay-bounded schedules).",
+    "C05": "Also: one message object sent repeatedly with pauses and through a second session (SendingTime = instant on the wire, comp ids of the sending session).",
+    "C06": "Also: Logons lacking 98 / 108; quiet-session oracle after 35 s of silence; logon parameter sweep (32 intervals incl. int64 wrap-around values x method x Opts.Tags full/minimal).",
+    "C07": "Also: Logons lacking 98 / 108; logon parameter sweep followed by three periods of silence and a TestRequest.",
+    "C08": "Also: second logon on the same connection (previous interval equal / smaller / larger); transient message-store failure on the k-th save (k <= 4).",
+    "C09": "Also: second logon on the same connection; inbound retransmissions (PossDupFlag=Y); silence after a pending or completed logout must end in the disconnect event.",
+    "C10": "Also: expected inbound number produced by real inbound histories (arrivals in every receiving state, three kinds of logout) followed by a second Logon with number expected+{0,1,3}.",
+    "C11": "Also: family (iv) framing fields in every order with impossible values.",
+    "C12": "Also: regeneration over an earlier, longer generation; every type re-spelled consistently in schema and mapping; one Generator object executed twice through the library API.",
+    "C14": "Also: Logout+Logon event; schedule part with a stalled writer (4-slot queue, 8 requests, delay bound 1/2).",
+    "C15": "Also: endings that begin while the session's own TestRequest is outstanding; Stop with a full outgoing queue.",
+    "C16": "Also: intact admin messages without MsgSeqNum; a tag ending in 34 / text 34= ahead of MsgSeqNum; 32 s of silence; connection-level part (damaged message + valid follower through the real Conn, 360 cases).",
+    "C17": "Also: as C01 (earlier bytes intact, non-canonical float texts, refused Set).",
+    "C18": "Also: look-alikes of BeginString / BodyLength / MsgType / MsgSeqNum in the connection phase; session-level decoys of MsgType / MsgSeqNum with the SequenceReset builder configured.",
+    "C19": "Also: handler removal by the registered id; retransmissions through re-stamping handlers; the session's final Logout refused by the store or a handler; inbound backlog at stop under delay-bounded schedules.",
+    "C20": "Also: full ResendRequests right after the senders' second round and after a timer heartbeat; Logon-Logout-Logon within the first polling step.",
+}
+for _p, _x in RULE_EXTRA.items():
+    CHECKS[_p]["rule"] += " " + _x
+CHECKS["C16"]["deadline"]["quick"] = 200
+CHECKS["C08"]["deadline"]["quick"] = 200
